@@ -3,14 +3,19 @@
 set -e
 id=$1; suf=$2; d=/tmp/seed/$id$suf
 mkdir -p $d
-[ -d $d/repo ] || git -C /repo worktree add -q --detach $d/repo HEAD
+if [ -d $d/repo ]; then git -C $d/repo checkout -q --detach $(git -C /repo rev-parse HEAD); else git -C /repo worktree add -q --detach $d/repo HEAD; fi
 python3 - "$id" "$d" <<'PY'
-import json,sys
+import json,sys,glob,os
 pid=sys.argv[1].upper(); d=sys.argv[2]
 props={json.loads(l)["id"]:json.loads(l) for l in open('/verif/properties.jsonl')}
 t=open('/verif/tools_seed_prompt_tmpl.md').read()
 p=props[pid]
 txt=f"{pid}: {p['title']}\n{p['statement']}\nQuantified over: {p['quantifier']['text']}\nAnchors: {', '.join(p['anchors']['files'])}"
+prev=[]
+for m in glob.glob('/verif/seeded/%s-*/meta.json'%pid):
+    j=json.load(open(m)); prev.append("- files %s: %s"%(j.get('files_changed'), str(j.get('what_breaks'))[:300]))
+if prev:
+    txt+="\n\n## Already taken (choose a DIFFERENT mechanism, different function, different clause of the property)\n"+"\n".join(prev)
 open(d+'/PROMPT.md','w').write(t.replace('@WT@',d+'/repo').replace('@DIR@',d).replace('@PROP@',txt).replace('@ID@',pid))
 PY
 echo $d
